@@ -479,6 +479,9 @@ def find_group_cohorts(
     # (binning, resampling)
     present_labels = np.arange(bitmask.shape[LABEL_AXIS])
     present_labels_mask = chunks_per_label != 0
+    if not present_labels_mask.any():
+        # none of the requested labels is present: there is nothing to group (and no cohort to form), any plan will do
+        return "map-reduce", {}
     if not present_labels_mask.all():
         present_labels = present_labels[present_labels_mask]
         bitmask = bitmask[..., present_labels_mask]
